@@ -236,6 +236,11 @@ async def _build(env, case, ctx):
             st = wf.create_step(env.ExecuteStep, name=s["n"], job_port=sched.get_output_port())
             st.command = env.VCommand(st, add=s.get("add", 0), fail=s.get("fail", ()), yields=s.get("yields", 0),
                                       hold=s.get("hold", False))
+        elif k == "default":
+            # CWL input with a `default:`: DefaultTransformer(primary port "x", default port s["dport"])
+            from streamflow.cwl.transformer import DefaultTransformer
+
+            st = wf.create_step(DefaultTransformer, name=s["n"], default_port=port(s["dport"]))
         elif k == "merge":
             # CWL `source: [a, b, ...]` (linkMerge merge_nested): ListMergeCombinator over the source ports
             from streamflow.cwl.combinator import ListMergeCombinator
@@ -468,6 +473,8 @@ def consumers(case):
     for s in case["steps"]:
         for p in s["ins"].values():
             used.setdefault(p, []).append(s["n"])
+        if "dport" in s:
+            used.setdefault(s["dport"], []).append(s["n"])
     return used
 
 
@@ -637,6 +644,19 @@ def gen_exec_net(rng, fail_p=0.6):
     if rng.random() < fail_p:
         ex["fail"] = [rng.choice(tags)]
         ex["hold"] = rng.random() < 0.7       # the siblings of the failing job are still running when it fails
+    return fix_outputs(case)
+
+
+def gen_default_net(rng):
+    """a DefaultTransformer: primary port with some null values, default port carrying the (persisted) default token"""
+    n = rng.choice([1, 2, 3, 5])
+    tags = [f"0.{i}" for i in range(n)]
+    vals = [None if rng.random() < 0.5 else rng.randrange(0, 30) for _ in tags]
+    if all(v is not None for v in vals):
+        vals[rng.randrange(n)] = None
+    inputs = {"i0": [[t, v] for t, v in zip(tags, vals)], "dflt": [["0", rng.randrange(100, 130)]]}
+    steps = [{"n": "/d", "k": "default", "ins": {"x": "i0"}, "outs": {"o": "q"}, "dport": "dflt"}]
+    case = {"f": "net", "steps": steps, "inputs": inputs, "sched": rng.randrange(1 << 30)}
     return fix_outputs(case)
 
 
